@@ -30,6 +30,8 @@ KEYS = tuple(FLOORS["quick"].keys()) + ("tb_cases", "trtb_cases", "exact_cases",
 # floors for the situations added with the later rounds of seeded changes (evidence that they were really exercised)
 FLOORS["quick"].update({'same_object_again': 2500})
 FLOORS["thorough"].update({'same_object_again': 12500})
+FLOORS["quick"].update({'debug_tracing_cases': 150, 'zero_size_packets': 2000})
+FLOORS["thorough"].update({'debug_tracing_cases': 750, 'zero_size_packets': 10000})
 
 
 def plan(tier):
